@@ -14,7 +14,7 @@ _DTYPES = {"f8": np.float64, "f4": np.float32, "f2": np.float16, "i8": np.int64,
 
 UNARY_CORE = ["neg", "pos", "square", "abs", "exp", "log", "sin", "cos", "tanh", "sqrt"]
 UNARY_MORE = ["arccos", "arcsin", "arctan", "arccosh", "arcsinh", "arctanh", "cbrt", "cosh", "sinh", "tan", "exp2", "expm1", "log10", "log2", "log1p", "reciprocal",
-              "cot", "sec", "csc", "coth", "sech", "csch", "arccot", "arccoth", "arccsc", "arcsec", "arccsch"]
+              "cot", "sec", "csc", "coth", "sech", "csch", "arccot", "arccoth", "arccsc", "arcsec", "arccsch", "sinc"]
 UNARY = UNARY_CORE * 3 + UNARY_MORE  # the core names stay three times as likely as the long tail
 UNARY_EXACT = ["neg", "pos", "square"]
 BINARY = ["add", "sub", "mul", "div", "maximum", "minimum"] * 3 + ["arctan2", "logaddexp", "logaddexp2"]
@@ -463,6 +463,15 @@ class Gen:
         src = src if src is not None else self.choice(hs)
         nd = self.t[src].val.ndim
         ax = None if nd == 0 or self.coin(0.2) else self.r.randint(-nd, nd - 1)
+        if not self.exact and self.coin(0.3):
+            h = self._emit_op("cumprod", [{"t": src}], {"axis": ax})
+            if h is not None:
+                return h
+        if not self.exact and nd >= 1 and self.coin(0.2):
+            p = {"ord": self.choice([None, None, 1, 2, 3]), "axis": (None if (nd == 1 and self.coin(0.5)) else self.r.randint(-nd, nd - 1)), "keepdims": self.coin(0.3)}
+            h = self._emit_op("norm", [{"t": src}], p)
+            if h is not None:
+                return h
         return self._emit_op("cumsum", [{"t": src}], {"axis": ax})
 
     def op_matmul(self, src=None):
